@@ -17,7 +17,7 @@ text run are written only by the constructor (runs are joined only by CellText::
 import re
 
 from ..common import guards, lib_reachable, short, where
-from ..exprs import expand_combinators, simplify, closure_of, format_parts, is_const, mentions, strip
+from ..exprs import concat_parts, expand_combinators, simplify, closure_of, format_parts, is_const, mentions, strip
 from ..mirlib import Expr, Program, expr_str, op_place
 
 LEN_FN = re.compile(r"^alloc::string::String::len$|^core::str::<impl str>::len$")
@@ -117,6 +117,102 @@ def len_taint(run, p):
                 if pl is not None and pl["l"] in tainted:
                     out.append((t, "a byte length (len() at %s) is used as a cell coordinate" % tainted[pl["l"]]))
     return out, len(tainted)
+
+
+def width_value(prog, e_, w, penv):
+    """the value of an expression over `ch.width()` when that option is w (None | 0 | 1 | 2): integers, Option values
+    ('Some', v) / ('None',), comparisons as 0/1.  Raises ValueError on anything it does not understand (fail closed)."""
+    e_ = strip(e_)
+    k_ = e_[0]
+    if k_ == "const":
+        return int(e_[2])
+    if k_ == "param":
+        return penv[(e_[1], tuple(e_[2]))]
+    if k_ == "field":
+        b_ = width_value(prog, e_[1], w, penv)
+        fs = tuple(f for f in e_[2])
+        if fs[:2] == ("@Some", "0") and isinstance(b_, tuple) and b_[0] == "Some":
+            return b_[1]
+        raise ValueError("projection")
+    if k_ == "agg" and e_[2] in ("Some", "None"):
+        return ("Some", width_value(prog, e_[3][0][1], w, penv)) if e_[2] == "Some" else ("None",)
+    if k_ == "cast":
+        return width_value(prog, e_[2], w, penv)
+    if k_ == "bin" and e_[1].replace("WithOverflow", "").replace("Unchecked", "") in ("Sub", "Add"):
+        a_, b_ = width_value(prog, e_[2], w, penv), width_value(prog, e_[3], w, penv)
+        v_ = a_ - b_ if "Sub" in e_[1] else a_ + b_
+        if v_ < 0:
+            raise ValueError("underflow")
+        return v_
+    if k_ == "call":
+        n_ = e_[1]
+        if n_.endswith("UnicodeWidthChar>::width"):
+            if strip(e_[2][0])[0] != "param":
+                raise ValueError("width of something else")
+            return ("None",) if w is None else ("Some", w)
+        args_ = e_[2]
+        def apply(cl_e, val):
+            cl_, caps_ = closure_of(strip(cl_e))
+            if cl_ not in prog.bodies:
+                raise ValueError("closure")
+            rr = Expr(prog, cl_).returns()
+            if len(rr) != 1:
+                raise ValueError("closure returns")
+            return width_value(prog, rr[0], w, {(2, ()): val})
+        if re.search(r"Option::<T>::unwrap_or$", n_):
+            o_ = width_value(prog, args_[0], w, penv)
+            return o_[1] if o_[0] == "Some" else width_value(prog, args_[1], w, penv)
+        if re.search(r"Option::<T>::unwrap_or_default$", n_):
+            o_ = width_value(prog, args_[0], w, penv)
+            return o_[1] if o_[0] == "Some" else 0
+        if re.search(r"Option::<T>::map_or$", n_):
+            o_ = width_value(prog, args_[0], w, penv)
+            return apply(args_[2], o_[1]) if o_[0] == "Some" else width_value(prog, args_[1], w, penv)
+        if re.search(r"Option::<T>::map$", n_):
+            o_ = width_value(prog, args_[0], w, penv)
+            return ("Some", apply(args_[1], o_[1])) if o_[0] == "Some" else o_
+        if n_.endswith("saturating_sub"):
+            return max(0, width_value(prog, args_[0], w, penv) - width_value(prog, args_[1], w, penv))
+        if re.search(r"cmp::Ord::max$|cmp::max$", n_):
+            return max(width_value(prog, args_[0], w, penv), width_value(prog, args_[1], w, penv))
+    if k_ == "discr":
+        o_ = width_value(prog, e_[1], w, penv)
+        if isinstance(o_, tuple):
+            return 1 if o_[0] == "Some" else 0
+        raise ValueError("discriminant of a non-option")
+    if k_ == "bin" and e_[1] in ("Gt", "Ge", "Lt", "Le", "Eq", "Ne"):
+        a_, b_ = width_value(prog, e_[2], w, penv), width_value(prog, e_[3], w, penv)
+        return int({"Gt": a_ > b_, "Ge": a_ >= b_, "Lt": a_ < b_, "Le": a_ <= b_, "Eq": a_ == b_, "Ne": a_ != b_}[e_[1]])
+    if k_ == "un" and e_[1] == "Not":
+        return int(not width_value(prog, e_[2], w, penv))
+    raise ValueError("unsupported " + str(e_[:2]))
+
+
+
+def columns_by_paths(prog, p, pidx):
+    """the values a one-character function returns for width None, 0, 1, 2 (path by path), or None"""
+    from ..mirlib import paths as mir_paths
+    ps = mir_paths(prog, p)
+    if not ps:
+        return None
+    out = []
+    try:
+        for w in (None, 0, 1, 2):
+            val = None
+            for conds, ret in ps:
+                taken = True
+                for c, tk in conds:
+                    v = int(width_value(prog, c, w, {}))
+                    if (isinstance(tk, tuple) and v in tk[1]) or (not isinstance(tk, tuple) and v != tk):
+                        taken = False
+                        break
+                if taken:
+                    val = width_value(prog, ret, w, {})
+                    break
+            out.append(val)
+    except (ValueError, KeyError, IndexError, TypeError):
+        return None
+    return out
 
 
 def run(run):
@@ -344,12 +440,12 @@ def run(run):
                 okm = False
                 continue
             start = strip(e[2][0])
-            fp = format_parts(e[2][1])
-            if fp is None or fp[0] != [("arg",), ("arg",)] or len(fp[1]) != 2:
+            cp = concat_parts(e[2][1])
+            if cp is None or [c_[0] for c_ in cp] != ["arg", "arg"]:
                 okm = False
                 continue
-            first = strip(fp[1][0][1])
-            second = strip(fp[1][1][1])
+            first = strip(cp[0][1])
+            second = strip(cp[1][1])
             if not (start[0] == "param" and start[2] == ("start",) and first == ("param", start[1], ("content",)) and second[0] == "param" and second[1] != start[1] and second[2] == ("content",)):
                 okm = False
             lt = None
@@ -374,6 +470,7 @@ def run(run):
             run.bad("C04.F3", "celltext-merge-order", where(prog.bodies[mg]), "CellText::merge does not concatenate the two runs in column order with the left run's start")
     # ---------------- F4 fillers
     sb = prog.method("from", r"string_buffer::StringBuffer$", r"From<&str>")
+    filler_fns = set()
     if not sb:
         run.missing("C04.F4", "From<&str> for StringBuffer")
     else:
@@ -403,9 +500,29 @@ def run(run):
                 if not loopish:
                     extra.append((t, expr_str(c)[:100]))
         chain_ok = False
+        filler_fns = set()
         if not (ok and len(nul) == 1 and chp):
-            # the iterator form: `.flat_map(|ch| once(ch).chain(repeat('\0').take(width(ch).unwrap_or(k).saturating_sub(1))))`
-            for q in [c_ for c_ in prog.closures_of(sb)] + [c2 for c_ in prog.closures_of(sb) for c2 in prog.closures_of(c_)]:
+            # the iterator form: `.flat_map(F)` over line.chars() with F (a closure or a function of the module) returning
+            # `once(ch).chain(repeat('\0').take(COUNT))`, COUNT = width(ch) - 1 columns (0 when width is None or 0): COUNT is
+            # evaluated as a function of the width option on None, Some(0), Some(1), Some(2) - any way of writing it is accepted
+            count_value = lambda e_, w, penv: width_value(prog, e_, w, penv)
+
+            cands = [(c_, 2) for c_ in prog.closures_of(sb)] + [(c2, 2) for c_ in prog.closures_of(sb) for c2 in prog.closures_of(c_)]
+            fm_sites = []
+            for q2 in [sb] + prog.closures_of(sb):
+                q2ex = Expr(prog, q2)
+                for _, t2 in prog.calls(q2):
+                    if re.search(r"Iterator::flat_map$", Program.callee_name(t2)) and len(t2["args"]) == 2:
+                        fa = strip(q2ex.operand(t2["args"][1]))
+                        src_ = strip(q2ex.operand(t2["args"][0]))
+                        over_chars = src_[0] == "call" and src_[1].endswith("str::<impl str>::chars")
+                        cl_, _ = closure_of(fa)
+                        if cl_:
+                            fm_sites.append((cl_, over_chars))
+                        elif fa[0] == "fn" and fa[1] in prog.bodies and prog.bodies[fa[1]].get("crate") == "svgbob":
+                            fm_sites.append((fa[1], over_chars))
+                            cands.append((fa[1], 1))
+            for q, pidx in cands:
                 rets = [strip(r) for r in Expr(prog, q).returns()]
                 if len(rets) != 1:
                     continue
@@ -413,29 +530,20 @@ def run(run):
                 if not (r[0] == "call" and re.search(r"Iterator::chain$", r[1]) and len(r[2]) == 2):
                     continue
                 first, rest = strip(r[2][0]), strip(r[2][1])
-                f_ok = first[0] == "call" and re.search(r"iter::sources::once::once$", first[1]) and strip(first[2][0]) == ("param", 2, ())
+                f_ok = first[0] == "call" and re.search(r"iter::sources::once::once$", first[1]) and strip(first[2][0]) == ("param", pidx, ())
                 r_ok = rest[0] == "call" and re.search(r"Iterator::take$", rest[1]) and len(rest[2]) == 2
                 if f_ok and r_ok:
                     rep, cnt = strip(rest[2][0]), strip(rest[2][1])
                     rep_ok = rep[0] == "call" and re.search(r"iter::sources::repeat::repeat$", rep[1]) and is_const(rep[2][0], 0)
-                    # count = width(ch).unwrap_or(k) - 1, saturating, k in {0, 1}
-                    cnt_ok = cnt[0] == "call" and cnt[1].endswith("saturating_sub") and is_const(cnt[2][1], 1) and \
-                        strip(cnt[2][0])[0] == "call" and strip(cnt[2][0])[1].endswith("unwrap_or") and \
-                        (is_const(strip(cnt[2][0])[2][1], 1) or is_const(strip(cnt[2][0])[2][1], 0)) and \
-                        strip(strip(cnt[2][0])[2][0])[0] == "call" and strip(strip(cnt[2][0])[2][0])[1].endswith("UnicodeWidthChar>::width") and \
-                        strip(strip(strip(cnt[2][0])[2][0])[2][0]) == ("param", 2, ())
-                    # the closure is the flat_map over line.chars() of every line, nothing filters in between
-                    used = False
-                    for q2 in [sb] + prog.closures_of(sb):
-                        q2ex = Expr(prog, q2)
-                        for _, t2 in prog.calls(q2):
-                            if re.search(r"Iterator::flat_map$", Program.callee_name(t2)) and len(t2["args"]) == 2:
-                                cl_, _ = closure_of(strip(q2ex.operand(t2["args"][1])))
-                                src_ = strip(q2ex.operand(t2["args"][0]))
-                                if cl_ == q and src_[0] == "call" and src_[1].endswith("str::<impl str>::chars"):
-                                    used = True
+                    try:
+                        vals = [count_value(cnt, w_, {}) for w_ in (None, 0, 1, 2)]  # UnicodeWidthChar::width is None, 0, 1 or 2
+                    except (ValueError, KeyError, IndexError, TypeError):
+                        vals = None
+                    cnt_ok = vals == [0, 0, 0, 1]
+                    used = any(f_ == q and oc for f_, oc in fm_sites)
                     if rep_ok and cnt_ok and used:
                         chain_ok = True
+                        filler_fns.add(q)
             if chain_ok:
                 run.ok("C04.F4", "every character is followed by NUL fillers for columns 1..width (once(ch).chain(repeat(NUL).take(width - 1)))", where(prog.bodies[sb]))
         if chain_ok:
@@ -485,7 +593,7 @@ def run(run):
     for p, t, n in sites:
         if not re.search(r"<char as unicode_width::UnicodeWidthChar>::width$", n):
             continue
-        if sb and (p == sb or p.startswith(sb + "::{closure")):
+        if sb and (p == sb or p.startswith(sb + "::{closure") or any(p == f_ or p.startswith(f_ + "::{closure") for f_ in filler_fns)):
             continue   # the filler loop / filler chain, checked under F4
         r = [strip(x) for x in Expr(prog, p).returns()]
         ok = len(r) == 1 and mentions(r[0], lambda z: z[0] == "call" and z[1].endswith("Ord::max") and any(is_const(a, 1) for a in z[2])) and \
@@ -495,7 +603,11 @@ def run(run):
         extra = []
         mentions(r[0] if r else (), lambda z: z[0] == "call" and not re.search(r"Ord::max$|unwrap_or$|UnicodeWidthChar>::width$", z[1]) and extra.append(z[1]) and False)
         extra_bin = mentions(r[0] if r else (), lambda z: z[0] == "bin")
-        if ok and not extra and not extra_bin:
+        by_paths = None
+        if not (ok and not extra and not extra_bin):
+            # any other spelling (a match with a guard, if/else): the function's value for width None, 0, 1, 2
+            by_paths = columns_by_paths(prog, p, 2 if "{closure" in p.rsplit("::", 1)[-1] else 1)
+        if (ok and not extra and not extra_bin) or by_paths == [1, 1, 1, 2]:
             canon += 1
             run.ok("C04.F5", "%s counts a character as max(1, width) columns, like the row expansion" % short(p), where(t))
         else:
